@@ -55,7 +55,15 @@ class Base:
 
         def impl_ok(c, o):
             return not (o.startswith("FAIL:") and any(k in kinds for k in kinds_of(o))) and not o.startswith(("CRASH", "TIMEOUT", "PANIC"))
-        return [{"name": "programs-x-configs", "harness": "rt", "driver": None, "cases": cases, "impl_ok": impl_ok, "chunk": 40,
+        # the printer's here-document bookkeeping replayed on the Coq model (hook printer.VerifHook)
+        hsrc = G.heredoc_corpus() + G.arith_corpus() + [p_ for p_ in progs if "<<" in p_]
+        hcases = ["%s\t%d" % (hx(p_), k_) for p_ in hsrc for k_ in (0, 164, 255)]
+        hpart = {"name": "heredoc-placement-model", "harness": "hdprint", "driver": "hdp", "cases": hcases, "compare": lambda c, i, m: True,
+                 "impl_ok": lambda c, o: o.startswith(("ok", "skip")), "nontrivial": lambda c: True,
+                 "distribution": {"sources": len(hsrc), "configs": 3}}
+        if self.id != "C05":
+            hpart = None
+        return ([hpart] if hpart else []) + [{"name": "programs-x-configs", "harness": "rt", "driver": None, "cases": cases, "impl_ok": impl_ok, "chunk": 40,
                  "nontrivial": lambda c: len(c.split("\t")[0]) > 8,
                  "distribution": {"programs": len(progs), "all_256_configs_on": sum(1 for c in cases if "\tall\t" in c), "pairwise_16_on": sum(1 for c in cases if "\tall\t" not in c)}}]
 
